@@ -9,6 +9,7 @@ import (
 	"net"
 	"net/http/httptest"
 	"net/netip"
+	"os"
 	"sort"
 	"strconv"
 	"strings"
@@ -96,6 +97,16 @@ func runRun(t *testing.T, s *Scenario) (evs []wire.Event) {
 	rp := s.Run
 	if rp.Via == "" {
 		rp.Via = "lib"
+	}
+	// a scenario may shrink the ephemeral port range of the harness's private network namespace
+	if pr, ok := s.Extra["port_range"].([]any); ok && len(pr) == 2 {
+		const f = "/proc/sys/net/ipv4/ip_local_port_range"
+		if old, err := os.ReadFile(f); err == nil {
+			if err := os.WriteFile(f, []byte(fmt.Sprintf("%d %d", int(pr[0].(float64)), int(pr[1].(float64)))), 0o644); err != nil {
+				t.Fatalf("harness: port range: %v", err)
+			}
+			defer os.WriteFile(f, old, 0o644)
+		}
 	}
 	synctest.Test(t, func(t *testing.T) {
 		w := wire.New(s.Script)
@@ -413,6 +424,36 @@ func runAlloc(t *testing.T, s *Scenario) []wire.Event {
 	}
 	close(start)
 	wg.Wait()
+	// stress rounds: G gated goroutines allocate N blocks of M identifiers each in a tight loop (nothing is logged between two
+	// allocations, so that a reserve-and-read that is not ONE atomic step has a chance to interleave); one line per round with
+	// every block start handed out in it. G*N*M < 65536: all blocks of a round are live together.
+	if st, ok := s.Extra["stress"].(map[string]any); ok {
+		g, n, m, rounds := int(st["g"].(float64)), int(st["n"].(float64)), int(st["m"].(float64)), int(st["rounds"].(float64))
+		for r := 0; r < rounds; r++ {
+			got := make([][]int, g)
+			gate := make(chan struct{})
+			var wg2 sync.WaitGroup
+			for ci := 0; ci < g; ci++ {
+				wg2.Add(1)
+				go func(ci int) {
+					defer wg2.Done()
+					loc := make([]int, n)
+					<-gate
+					for i := 0; i < n; i++ {
+						loc[i] = int(packets.AllocPacketID(uint8(m)))
+					}
+					got[ci] = loc
+				}(ci)
+			}
+			close(gate)
+			wg2.Wait()
+			all := []int{}
+			for _, l := range got {
+				all = append(all, l...)
+			}
+			w.LogEvent("Alloc", "caller", -1, "m", m, "base", -1, "echo", -1-r, "round", r, "bases", all)
+		}
+	}
 	w.LogEvent("Return", "ok", true, "panic", "", "err", errInfo(nil), "has_result", false, "hops", []hopOut{}, "src", "", "sport", 0, "dst", "", "dport", 0,
 		"goroutines", 0, "gsample", "", "opened", 0, "closed_once", 0, "bad_handles", []string{}, "accepts", 0)
 	return w.Events()
